@@ -233,7 +233,7 @@ class Ops(SeriesOps):
         order = ("sort", terms, tuple(asc) if isinstance(asc, list) else asc, kind, prev)
         g = f.derive(order=order)
         if kw.get("ignore_index") is True:
-            g.index = ("range",)
+            g.index = ("range", g.ctx())
         self.log("sort", node, src=f.obj, dst=g.obj, base=f.base, by=[b if isinstance(b, str) else T.show(to_term(b)) for b in by_l],
                  by_terms=terms, ascending=asc, sort_kind=kind, ctx_before=f.ctx(), prev_order=f.order)
         return self._inplace(f, g, kw, node, "sort_values")
@@ -369,7 +369,14 @@ class Ops(SeriesOps):
         return self._wrap_all(f, lambda t: ("astype", ty, t), node, "astype")
 
     def f_round(self, f, pos, kw, node):
-        nd = to_term(pos[0] if pos else kw.get("decimals", 0))
+        d = pos[0] if pos else kw.get("decimals", 0)
+        if isinstance(d, dict):
+            g = self.newframe(f, node, "round")
+            for c, n in d.items():
+                if isinstance(c, str):
+                    g.setcol(c, ("round", f.col(c), to_term(n)))
+            return g
+        nd = to_term(d)
         return self._wrap_all(f, lambda t: ("round", t, nd), node, "round")
 
     def f_shift(self, f, pos, kw, node):
